@@ -309,8 +309,8 @@ theorem header_table_ok : HeaderOk Gen.Registry.confFileHeader := by
   unfold HeaderOk SkipLine NoNL; decide +kernel
 
 /-- Whatever `registry.close` writes, `open_registry` reads back: for every list of values with
-reader-safe names (`GoodName`: printable ASCII without blank, not starting with `#`, not ending in
-a backslash), every help text (wrapped into lines by `textwrap`, a parameter: lines without
+reader-safe names (`GoodName`: printable ASCII without blank, not starting with `#`, every backslash
+escaping a character of the name — what `join` produces), every help text (wrapped into lines by `textwrap`, a parameter: lines without
 CR/LF), every default and every value text, the file loads and the cache holds exactly the
 `str()` text of every value, in order.  (After the fix of the `# Default value:` line, which
 used to be written unescaped.) -/
@@ -477,20 +477,20 @@ backslashes, non-ASCII, control characters) -/
 theorem name_unescape_escape (n : Str) : unescapeName (escapeName n) = .ok n :=
   unescapeName_escapeName n
 
-/-- Full statement (false on the pinned tree, see the counter-example): `split (join ns) = ns`.
-Proved part: for every non-empty list of components none of which — except possibly the last —
-ends in a backslash. -/
-theorem name_escape_roundtrip_partial (ns : List Str) (hne : ns ≠ [])
-    (h : ∀ n ∈ ns.dropLast, n.getLast? ≠ some '\\') : splitName (joinName ns) = some ns :=
-  splitName_joinName_aux ns hne h
+/-- **`split(join(ns)) = ns`** for every non-empty list of name components, whatever they contain —
+dots, colons, trailing backslashes (after the fix of `registry.split`, which took the separator
+after an ESCAPED backslash for an escaped separator). -/
+theorem name_escape_roundtrip (ns : List Str) (hne : ns ≠ []) : splitName (joinName ns) = some ns :=
+  splitName_joinName_aux ns hne
 
-example : ["supybot".toList, ":net.x".toList, "#chan\\".toList] ≠ [] ∧
-    ∀ n ∈ ["supybot".toList, ":net.x".toList, "#chan\\".toList].dropLast, n.getLast? ≠ some '\\' := by decide
+/-- the former counter-example (known finding C15-name-trailing-backslash) -/
+theorem name_trailing_backslash :
+    splitName (joinName ["a\\".toList, "b".toList]) = some ["a\\".toList, "b".toList] := by decide
 
-/-- counter-example (known finding C15-name-trailing-backslash): a component ending in a backslash
-swallows the separator -/
-theorem name_escape_counterexample :
-    splitName (joinName ["a\\".toList, "b".toList]) = some ["a\\.b".toList] := by decide
+/-- every name `join` makes ends unescaped: together with "no blank, not starting with `#`" that is
+`GoodName`, the precondition of the file theorems — a name ending in a backslash (a channel called
+`#foo\`) included -/
+theorem joined_name_ends_unescaped (n : Str) : escEnd false (escapeName n) = false := escapeName_escEnd n
 
 /-! ### the source constants the model implements by hand -/
 
@@ -500,10 +500,11 @@ the source has now (extracted on every run): a change to any of them breaks this
 theorem source_constants_ok :
     Gen.Registry.encoding = "unicode_escape" ∧
     Gen.Registry.slashEndRe = "\\\\*$" ∧
-    Gen.Registry.kvSplitRe = "(?<!\\\\): " ∧ Gen.Registry.kvMaxSplit = 1 ∧
+    Gen.Registry.kvSeparator = [':', ' '] ∧ Gen.Registry.nameSeparator = ['.'] ∧
+    Gen.Registry.unescapedFindSrc =
+      "i = start; while i < len(s): if s[i] == '\\\\': i += 2 elif s.startswith(sub, i): return i else: i += 1; return -1" ∧
     Gen.Registry.lineRstrip = ['\r', '\n'] ∧ Gen.Registry.valueStrip = ['\r', '\n'] ∧
     Gen.Registry.lineFormat = "%s: %s\n" ∧
-    Gen.Registry.nameSplitRe = "(?<!\\\\)\\." ∧
     Gen.Registry.escapeReplace = [(".", "\\."), (":", "\\:")] ∧
     Gen.Registry.unescapeReplace = [("\\.", "."), ("\\:", ":")] ∧
     Gen.Registry.commaSplitRe = "\\s*,\\s*" ∧ Gen.Registry.commaSetSplitRe = "\\s*,\\s*" ∧
